@@ -4,6 +4,6 @@ P=$1; ID=$2; T=${3:-quick}
 cd /repo || exit 2
 if ! git diff --quiet; then echo "/repo is dirty"; exit 2; fi
 git apply "$P" || { echo "patch does not apply"; exit 3; }
-cd /verif && ./check $ID --tier $T > /tmp/seeded_$ID.log 2>&1; rc=$?
+cd /verif && VERIF_EVIDENCE_DIR=/tmp/verif-mutant-evidence ./check $ID --tier $T > /tmp/seeded_$ID.log 2>&1; rc=$?
 git -C /repo checkout -- . 
 echo "check $ID rc=$rc"; grep -c "^VIOLATION" /tmp/seeded_$ID.log; grep -m3 "what=" /tmp/seeded_$ID.log | cut -c1-300; tail -1 /tmp/seeded_$ID.log | cut -c1-200
